@@ -344,15 +344,18 @@ package container
 //@   requires c != nil && conf != nil && (H.st == 0 || H.st == 9)
 //@   assigns H.st, H.batch, H.fds, H.sent, H.last_cmd
 //@   ensures H.st == 0 || H.st == 9
+//@   ensures @C10 result == nil ==> H.sent == old(H.sent) + 1 && H.last_cmd == 8
 
 //@ func container.(*container).Symlink props C10 C14
 //@   arith int
 //@   requires c != nil && (H.st == 0 || H.st == 9)
 //@   assigns H.st, H.batch, H.fds, H.sent, H.last_cmd
 //@   ensures H.st == 0 || H.st == 9
+//@   ensures @C10 @C14 result.1 == nil ==> H.sent == old(H.sent) + 1 && H.last_cmd == 9
 //@   ensures @C14 result.1 == nil ==> len(result.0) == len(l) && len(H.batch) == len(l)
 //@   ensures @C14 result.1 == nil ==> forall i int :: 0 <= i && i < len(l) ==> ((len(H.batch[i]) == 0) <==> (result.0[i] == nil))
 //@   loop 0: invariant -1 <= rangeindex && rangeindex < len(H.batch) && len(results) == len(l) && len(H.batch) == len(l) && fresh(results) && soff(results) == 0 && (H.st == 0 || H.st == 9) && H.batch == reply.BatchErrors
+//@   loop 0: invariant H.sent == old(H.sent) + 1 && H.last_cmd == 9
 //@   loop 0: invariant forall i int :: 0 <= i && i <= rangeindex ==> ((len(H.batch[i]) == 0) <==> (results[i] == nil))
 
 //@ func container.(*container).execveSyncKill props C10
@@ -416,11 +419,13 @@ package container
 //@   requires c != nil && (H.st == 0 || H.st == 9)
 //@   assigns H.st, H.batch, H.fds, H.sent, H.last_cmd, FD.closed, FD.cloexec, FC.closed
 //@   ensures @C10 H.st == 0 || H.st == 9
+//@   ensures @C10 @C14 err == nil ==> H.sent == old(H.sent) + 1 && H.last_cmd == 2
 //@   ensures @C14 err == nil ==> len(results) == len(p) && len(H.batch) == len(p)
 //@   ensures @C14 err == nil ==> forall i int :: 0 <= i && i < len(p) ==> (len(H.batch[i]) != 0 ==> results[i].File == nil && results[i].Err != nil)
 //@   ensures @C14 err == nil ==> forall i int :: 0 <= i && i < len(p) ==> (len(H.batch[i]) == 0 ==> results[i].File != nil && results[i].Err == nil && fdof(results[i].File) == H.fds[rank(H.batch, i)])
 //@   loop 0: invariant -1 <= rangeindex && rangeindex < len(H.batch) && (H.st == 0 || H.st == 9) && H.batch == reply.BatchErrors && H.fds == msg.Fds && len(H.batch) == len(p)
 //@   loop 0: invariant len(results) == len(p) && fresh(results) && soff(results) == 0 && fdIndex == rank(H.batch, rangeindex + 1) && fdIndex <= len(H.fds) && err == nil
+//@   loop 0: invariant H.sent == old(H.sent) + 1 && H.last_cmd == 2
 //@   loop 0: invariant forall i int :: 0 <= i && i <= rangeindex ==> (len(H.batch[i]) != 0 ==> results[i].File == nil && results[i].Err != nil)
 //@   loop 0: invariant forall i int :: 0 <= i && i <= rangeindex ==> (len(H.batch[i]) == 0 ==> results[i].File != nil && results[i].Err == nil && fdof(results[i].File) == H.fds[rank(H.batch, i)])
 
